@@ -51,6 +51,13 @@ claim("C04",
       "Classical.choice, Quot.sound}; reference renderer; node runner with stub backend (native nodes, static slots); V8.",
       "Lean 4 proof (partial: branch selector, names) + reference-render oracle under the real runtime")
 
+claim("C20",
+      "Lean 4 theorem emit_perm_invariant: emission walks ordered maps, so for any two insertion orders (permutations) of entries with distinct keys the "
+      "emitted bundle is identical, and import_group equals adding the files (import_group_eq_add); order model tied to list_template_trees() order; "
+      "oracle: fresh processes x permuted insertion orders x import_group variants, every artefact byte-compared; CSS twice in separate processes.",
+      "Trusted: Lean kernel; axioms ⊆ {propext, Classical.choice, Quot.sound}; std BTreeMap ascending iteration (modelled as stable sort); fresh processes for seed variation.",
+      "Lean 4 proof (sorted-permutation uniqueness) + multi-process differential oracle")
+
 ALL = ["C%02d" % i for i in range(1, 21)]
 
 def main():
